@@ -102,4 +102,8 @@ def docBom : Bytes := [49, 44, 50, 10, 239, 187, 191]
 example : pinnedRows (.csv csvPrm) docBom = .error .oob := by decide
 example : repairedRows (.csv csvPrm) docBom = .ok [crow [0, 1] [1, 2]] := by decide
 
+/-- `C11_fillData_slices`: the slices the model computes for: "1 1:1\n2 2:2\n3\n", 3 threads -/
+example : (List.range 3).map (fun tid => threadSlice [49, 32, 49, 58, 49, 10, 50, 32, 50, 58, 50, 10, 51, 10, 0] 14 3 tid)
+    = [.ok (0, 5), .ok (5, 5), .ok (5, 14)] := by decide
+
 end DmlcModel.Props.C11Witness
